@@ -205,6 +205,8 @@ package utils
 //@     ghostset ghost(0, "tsraw") = ts_millis
 //@     ghostset ghost(0, "tsnum") = 1
 //@   ensures [number-path-equals-string-path] implies(ghost(0, "tsnum") == 1, result == msOfEpoch(ghost(0, "tsraw")))
+// an integer JSON number keeps its exact value (it must not be routed through float64)
+//@   ensures [integer-number-exact] implies(ghost(0, "tsnum") == 1 && uf("isIntText", bool, rawVal) && uf("intOf", int64, rawVal) >= 0, result == msOfEpoch(uint64(uf("intOf", int64, rawVal))))
 //@ end
 
 //@ func normalizeIntToSeconds
